@@ -239,6 +239,11 @@ func genC06(r *rand.Rand, tier string, idx int) *World {
 			ps.SideRestarts = pick(r, int32(1), 1, apMax+1)
 			ps.SideRestartAgoSec = pick(r, 3, 20, 200, 900)
 		}
+		if chance(r, 0.2) {
+			// only the init container restarted
+			ps.InitRestarts = pick(r, int32(1), apMax+1, afMax+1)
+			ps.InitRestartAgoSec = pick(r, 5, 60, 300)
+		}
 		ps.StartAgoSec = pick(r, slow-3, slow-1, slow, slow+1, slow+3, 2*slow)
 		ps.AgeSec = ps.StartAgoSec + 10
 		cs.Pods = append(cs.Pods, c06Pod{State: ps})
